@@ -212,6 +212,16 @@ theorem transferPosition_some {p : Pool} {sender : String} {id : Nat} {newOwner 
   obtain ⟨pos, e1, c1, _, h1⟩ := h
   exact ⟨pos, e1, Decidable.not_not.mp c1, h1.symm⟩
 
+/-- an executed swap (which may additionally fail in the accumulator update) is the amounts-only `execSwap`
+whenever it succeeds. -/
+theorem execSwapS_some {scale : Int} {og zfo : Bool} {spf : Int} {pool : PoolSt} {ticks : Ticks} {spec : Int}
+    {x : SwapOut × Int} (h : execSwapS scale og zfo spf pool ticks spec = some x) :
+    execSwap og zfo spf pool ticks spec = some x := by
+  unfold execSwapS at h
+  cases hc : computeSwapS scale og zfo spf (execPriceLimit zfo) pool ticks spec with
+  | none => rw [hc] at h; cases h
+  | some r => rw [hc] at h; exact h
+
 theorem swap_some {p : Pool} {og zfo : Bool} {spec : Int} {p' : Pool} {ain aout fee : Int}
     (h : CLPool.swap p og zfo spec = some (p', ain, aout, fee)) :
     ∃ (r : SwapOut) (f : Int),
@@ -223,7 +233,7 @@ theorem swap_some {p : Pool} {og zfo : Bool} {spec : Int} {p' : Pool} {ain aout 
   simp only [Option.bind_eq_bind, ite_none_bind, Option.bind_eq_some_iff] at h
   obtain ⟨c1, ⟨r, f⟩, e1, c2, h⟩ := h
   have hne : p.positions ≠ [] := fun e => c1 (List.isEmpty_iff.mpr e)
-  refine ⟨r, f, hne, e1, ?_⟩
+  refine ⟨r, f, hne, execSwapS_some e1, ?_⟩
   simp only at h
   cases zfo
   · simp only [Bool.false_eq_true, ↓reduceIte] at h
